@@ -172,6 +172,26 @@ func registerEnvIntrinsics() {
 		mark(a[0], 0)
 		return nil, true
 	}
+	// Reinit: run a package's own initialisers again (package-level variables
+	// and init functions, from the real SSA) - "the process starts with the
+	// configuration that is in force now". Natively the harness re-executes
+	// the test binary instead (verifrt.RunChild).
+	intrinsics["servitor/verifrt.Reinit"] = func(in *Interp, fr *frame, fn *ssa.Function, a []Value) (Value, bool) {
+		pkg := in.P.prog.ImportedPackage(argStr(a[0]))
+		if pkg == nil {
+			in.unsupported("Reinit of unknown package " + argStr(a[0]))
+		}
+		*in.global(pkg.Var("init$guard")) = SBool{V: false}
+		in.runInit(fr, pkg)
+		return nil, true
+	}
+	intrinsics["servitor/verifrt.RegisterChild"] = func(in *Interp, fr *frame, fn *ssa.Function, a []Value) (Value, bool) {
+		return nil, true
+	}
+	intrinsics["servitor/verifrt.RunChild"] = func(in *Interp, fr *frame, fn *ssa.Function, a []Value) (Value, bool) {
+		in.unsupported("verifrt.RunChild under the engine (use verifrt.Symbolic to choose Reinit)")
+		return nil, true
+	}
 	intrinsics["servitor/verifrt.Param"] = func(in *Interp, fr *frame, fn *ssa.Function, a []Value) (Value, bool) {
 		name := argStr(a[0])
 		if v, ok := in.ex.cfg.Params[name]; ok {
